@@ -163,11 +163,14 @@ def main():
     ap.add_argument("--phase2-batches", type=int, default=48)
     ap.add_argument("--workers", type=int, default=12)
     ap.add_argument("--phase2-parallel", type=int, default=3)
+    ap.add_argument("--only-file", default="", help="only mutate files whose path contains this string")
     ap.add_argument("--retry", help="earlier result file: only re-run phase 2 for the mutants that survived there")
     a = ap.parse_args()
     os.makedirs(SCRATCH, exist_ok=True)
     os.makedirs(os.path.dirname(a.out), exist_ok=True)
     muts = gen_mutants()
+    if a.only_file:
+        muts = [m for m in muts if a.only_file in m["file"]]
     if a.retry:
         keep = set()
         for ln in open(a.retry):
